@@ -433,6 +433,8 @@ type summary struct {
 	ClassCounts map[string]int     `json:"class_counts"`
 	Infra       []string           `json:"infra"`
 	NonDet      []string           `json:"nondeterminism"`
+	NonDetSelect   int      `json:"nondeterminism_runtime_select"`
+	NonDetSelectAt []string `json:"nondeterminism_runtime_select_at"`
 	DetChecked  int                `json:"determinism_checked"`
 	DetFailed   int                `json:"determinism_failed"`
 	MaxSteps    int                `json:"max_steps"`
@@ -855,6 +857,10 @@ func runCheck(id, tier string) int {
 		agg.GNSSWeeks += s.GNSSWeeks
 		agg.DetChecked += s.DetChecked
 		agg.DetFailed += s.DetFailed
+		agg.NonDetSelect += s.NonDetSelect
+		if len(agg.NonDetSelectAt) < 5 {
+			agg.NonDetSelectAt = append(agg.NonDetSelectAt, s.NonDetSelectAt...)
+		}
 		agg.DistinctSch += s.DistinctSch
 		if s.MaxSteps > agg.MaxSteps {
 			agg.MaxSteps = s.MaxSteps
@@ -1075,6 +1081,9 @@ func runCheck(id, tier string) int {
 		}
 		die(2, "nondeterministic runs in check %s (not a property verdict)", id)
 	}
+	if agg.NonDetSelect > 0 {
+		fmt.Printf("note: %d of %d determinism spot checks diverged at a select statement whose ready cases the Go runtime chooses between (e.g. %v): legal executions, outside the tape; such runs may not replay\n", agg.NonDetSelect, agg.DetChecked, agg.NonDetSelectAt)
+	}
 	var missing []string
 	for _, pr := range requiredProbes[id] {
 		if agg.Probes[pr] == 0 {
@@ -1121,7 +1130,7 @@ func runCheck(id, tier string) int {
 		"distinct_event_logs":           agg.DistinctSch,
 		"reach_probes":                  agg.Probes,
 		"reach_probes_required_but_zero": missing,
-		"determinism_spot_checks":       map[string]int{"reruns": agg.DetChecked, "diverged": agg.DetFailed},
+		"determinism_spot_checks":       map[string]int{"reruns": agg.DetChecked, "diverged": agg.DetFailed, "diverged_at_a_select_decided_by_the_go_runtime": agg.NonDetSelect},
 		"instrumentation":               map[string]any{"files": binfo.Files, "sites": binfo.Counts, "skipped": binfo.Skipped, "degraded": binfo.Degraded},
 		"components_real":               p.Real,
 		"components_simulated_or_stub":  p.Stub,
